@@ -234,14 +234,218 @@ contract('mapproxy.script.defrag:defrag_compact_cache', props=['C19'],
                 1: dict(inv=['len(_seq) == 128'], types={'stored_tiles': 'bool', 'tiles': 'opaque'}, body_trace=[_defrag_row])})
 
 
-# ---- v1 bulk load: a missing slot does not end the scan -------------------------------------------------------------------
+# ---- v1 bundle (.bundlx index + .bundle data): which slot is read / written for which address -------------------------------
 cls(K + 'BundleV1', fields=dict(base_filename='str', lock_filename='str', offset='opaque', file_permissions='opaque',
                                 directory_permissions='opaque'))
+contract(K + 'BundleV1._rel_tile_coord', props=['C05'],
+         types=dict(tile_coord='tuple[int,int,int]'), returns='tuple[int,int]',
+         ensures=['result[0] == tile_coord[0] % 128 and result[1] == tile_coord[1] % 128',
+                  '0 <= result[0] < 128 and 0 <= result[1] < 128'],
+         must_fail='result[0] == tile_coord[0]')
+
+
+def _iter_events(st):
+    return st.trace[getattr(st, 'iter_start_trace', 0):]
+
+
+def _slot_is(ex, st, e, coord):
+    """the (x, y) arguments of the index call e are the slot of address coord"""
+    import z3
+    from pyvc.values import to_int
+    return z3.And(to_int(e.args[0]) == to_int(coord.items[0]) % 128, to_int(e.args[1]) == to_int(coord.items[1]) % 128)
+
+
+def _v1_store_iteration(ex, st, k):
+    """per stored tile: read the slot's previous offset, append the record, THEN publish the new offset in the same slot"""
+    import z3
+    from pyvc.values import VSeq, to_int
+    evs_ = _iter_events(st)
+    pos = {n: [i for i, e in enumerate(evs_) if e.name == n] for n in ('tile_offset', 'append_tile', 'update_tile_offset', 'remove_tile_offset')}
+    ok = len(pos['tile_offset']) == 1 and len(pos['append_tile']) == 1 and len(pos['update_tile_offset']) == 1 \
+        and not pos['remove_tile_offset'] and pos['tile_offset'][0] < pos['append_tile'][0] < pos['update_tile_offset'][0]
+    goal = z3.BoolVal(ok)
+    if ok:
+        to, ap, up = (evs_[pos[n][0]] for n in ('tile_offset', 'append_tile', 'update_tile_offset'))
+        coord, data = st.env['tile_coord'], st.env['data']
+        res = ap.result
+        goal = z3.And(goal, _slot_is(ex, st, to, coord), _slot_is(ex, st, up, coord),
+                      z3.BoolVal(ap.args[0] is data or (hasattr(ap.args[0], 't') and ap.args[0].t.eq(data.t))),
+                      to_int(ap.kwargs['prev_offset']) == to_int(to.result) if 'prev_offset' in ap.kwargs else z3.BoolVal(False),
+                      z3.BoolVal(isinstance(res, VSeq) and 'offset' in up.kwargs))
+        if isinstance(res, VSeq) and 'offset' in up.kwargs:
+            goal = z3.And(goal, to_int(up.kwargs['offset']) == to_int(res.items[0]))
+    yield ('v1_store_slot_and_order', goal,
+           'each tile: idx.tile_offset(slot) -> bundle.append_tile(data, prev_offset=that) -> idx.update_tile_offset(slot, '
+           'offset=the offset append_tile returned); slot = (x % 128, y % 128) of the tile address; the index entry is '
+           'published only after append_tile returned (its contract: record complete and flushed)')
+
+
+contract(K + 'BundleV1.store_tiles', props=['C05', 'C06', 'C19'],
+         types=dict(tiles='list[opaque]', dimensions='opaque'), returns='bool', default_callee='opaque',
+         inline=['_rel_tile_coord'],
+         opaque_fields={'coord': 'tuple[int,int,int]', 'stored': 'bool'}, stable_fields=['coord', 'stored'],
+         opaque_spec={'tile_offset': {'returns': 'int', 'pure': True}, 'append_tile': {'returns': 'tuple[int,int]'},
+                      'update_tile_offset': {}, 'readwrite': {'pure': True}, 'index': {'pure': True}, 'data': {'pure': True},
+                      'tile_buffer': {'pure': True}, 'read': {'returns': 'blob', 'pure': True}, 'FileLock': {'pure': True}},
+         loops={0: dict(inv=[], types={'tiles_data': 'list[tuple[tuple[int,int,int],blob]]'}),
+                1: dict(inv=[], types={}, body_trace=[_v1_store_iteration])})
+
+
+def _v1_load_iteration(ex, st, k):
+    import z3
+    from pyvc.values import to_int
+    evs_ = _iter_events(st)
+    offs = [e for e in evs_ if e.name == 'tile_offset']
+    reads = [e for e in evs_ if e.name == 'read_tile']
+    t = st.env['t']
+    goal = z3.BoolVal(len(offs) <= 1 and len(reads) <= len(offs))
+    if offs:
+        coord = ex.opaque_field(st, t, 'coord')
+        goal = z3.And(goal, _slot_is(ex, st, offs[0], coord.val if hasattr(coord, 'val') else coord))
+    for r in reads:
+        goal = z3.And(goal, to_int(r.args[0]) == to_int(offs[0].result))
+    yield ('v1_load_reads_own_slot', goal,
+           'each tile is read at the offset stored in ITS slot (x % 128, y % 128) of the index, nowhere else')
+
+
 contract(K + 'BundleV1.load_tiles', props=['C19', 'C05'],
          types=dict(tiles='list[opaque]', with_metadata='bool', dimensions='opaque'), returns='bool', default_callee='opaque',
+         inline=['_rel_tile_coord'],
          opaque_fields={'coord': 'opt[tuple[int,int,int]]', 'source': 'opt[opaque]'}, stable_fields=['coord'],
          opaque_spec={'tile_offset': {'returns': 'int', 'pure': True}, 'read_tile': {'returns': 'opt[opaque]', 'pure': True},
-                      'readonly': {'pure': True}, 'index': {'pure': True}, 'data': {'pure': True},
-                      '_rel_tile_coord': {'returns': 'tuple[int,int]', 'pure': True}},
-         loops={0: dict(inv=[], types={'missing': 'bool'},
+                      'readonly': {'pure': True}, 'index': {'pure': True}, 'data': {'pure': True}},
+         loops={0: dict(inv=[], types={'missing': 'bool'}, body_trace=[_v1_load_iteration],
                         no_early_exit='a removed or never stored slot marks the result "missing" but the remaining tiles are still loaded')})
+
+
+def _v1_remove(ex, st, post, result):
+    import z3
+    from pyvc import tracelib as T
+    rem = T.evs(st, 'remove_tile_offset')
+    other = T.evs(st, 'update_tile_offset', 'append_tile')
+    tile = post.env['tile']
+    coord = ex.opaque_field(st, tile, 'coord')
+    isnone = coord.isnone if hasattr(coord, 'isnone') else z3.BoolVal(False)
+    goal = z3.BoolVal(len(rem) <= 1 and not other)
+    if rem:
+        goal = z3.And(goal, _slot_is(ex, st, rem[0][1], coord.val if hasattr(coord, 'val') else coord),
+                      z3.BoolVal(any(True for cm in T.held(rem[0][1]))))
+    else:
+        goal = z3.And(goal, isnone)
+    yield ('v1_remove_clears_own_slot', goal,
+           'remove clears exactly the slot (x % 128, y % 128) of the address, under the bundle lock, and writes nothing else')
+
+
+contract(K + 'BundleV1.remove_tile', props=['C05', 'C19'],
+         types=dict(tile='opaque', dimensions='opaque'), returns='bool', default_callee='opaque', inline=['_rel_tile_coord'],
+         opaque_fields={'coord': 'opt[tuple[int,int,int]]'}, stable_fields=['coord'],
+         opaque_spec={'remove_tile_offset': {}, 'readwrite': {'pure': True}, 'index': {'pure': True}, 'FileLock': {'pure': True}},
+         trace=[_v1_remove])
+
+
+def _v1_is_cached(ex, st, post, result):
+    import z3
+    from pyvc.values import to_int
+    from pyvc import tracelib as T
+    offs = T.evs(st, 'tile_offset')
+    sizes = T.evs(st, 'read_size')
+    tile = post.env['tile']
+    goal = z3.BoolVal(len(offs) <= 1 and len(sizes) <= len(offs))
+    if offs:
+        coord = ex.opaque_field(st, tile, 'coord')
+        goal = z3.And(goal, _slot_is(ex, st, offs[0][1], coord.val if hasattr(coord, 'val') else coord))
+    for i, r in sizes:
+        goal = z3.And(goal, to_int(r.args[0]) == to_int(offs[0][1].result), ex.truth(st, result) == (to_int(r.result) != 0))
+    yield ('v1_is_cached_reads_own_slot', goal,
+           'existence is decided from the slot of this address: offset from its index entry, size from the record at that offset')
+
+
+contract(K + 'BundleV1.is_cached', props=['C05'],
+         types=dict(tile='opaque', dimensions='opaque'), returns='bool', default_callee='opaque', inline=['_rel_tile_coord'],
+         opaque_fields={'coord': 'opt[tuple[int,int,int]]', 'source': 'opt[opaque]'}, stable_fields=['coord'],
+         opaque_spec={'tile_offset': {'returns': 'int', 'pure': True}, 'read_size': {'returns': 'int', 'pure': True},
+                      'readonly': {'pure': True}, 'index': {'pure': True}, 'data': {'pure': True}},
+         trace=[_v1_is_cached])
+
+
+# ---- compact v1: index file (.bundlx, 5-byte little-endian offsets) and data file (.bundle, <size:4><bytes> records) ------
+IDX1_END = 16 + 128 * 128 * 5
+cls(K + 'BundleIndexV1', fields=dict(filename='str', _fh='file', directory_permissions='opaque', file_permissions='opaque',
+                                     _initialized='bool'))
+cls(K + 'BundleDataV1', fields=dict(filename='str', _fh='file', tile_offsets='opaque', directory_permissions='opaque',
+                                    file_permissions='opaque'))
+ghost('v1_entry', ['f', 'x', 'y'], "f_int(f, 16 + (x * 128 + y) * 5, 5)")
+
+contract(K + 'BundleIndexV1._tile_index_offset', props=['C05', 'C19'],
+         types=dict(x='int', y='int'), returns='int',
+         ensures=['result == 16 + (x * 128 + y) * 5',
+                  'implies(0 <= x < 128 and 0 <= y < 128, 16 <= result and result + 5 <= %d)' % IDX1_END],
+         must_fail='result == 16')
+lemma('v1_slots_disjoint', ['C05', 'C19'],
+      doc='different (x, y) in the 128 x 128 block have different, non-overlapping 5-byte index cells',
+      fn=lambda z3: (lambda x, y, u, v: ([0 <= x, x < 128, 0 <= y, y < 128, 0 <= u, u < 128, 0 <= v, v < 128, z3.Or(x != u, y != v)],
+                                         z3.Or(16 + (x * 128 + y) * 5 + 5 <= 16 + (u * 128 + v) * 5,
+                                               16 + (u * 128 + v) * 5 + 5 <= 16 + (x * 128 + y) * 5)))(
+          z3.Int('x'), z3.Int('y'), z3.Int('u'), z3.Int('v')))
+
+contract(K + 'BundleIndexV1.tile_offset', props=['C05', 'C19'],
+         types=dict(x='int', y='int'), returns='int', inline=['_tile_index_offset'],
+         requires=['0 <= x < 128 and 0 <= y < 128', 'f_len(self._fh) >= %d' % IDX1_END],
+         modifies=['self._fh.pos'],
+         ensures=['result == v1_entry(self._fh, x, y)', '0 <= result < 1099511627776'],
+         must_fail='result == 0')
+
+_V1_FRAME = ["""forall(lambda u, v: implies(0 <= u < 128 and 0 <= v < 128 and (u != x or v != y),
+                      v1_entry(self._fh, u, v) == old(v1_entry(self._fh, u, v))))""",
+             'f_len(self._fh) == old(f_len(self._fh))']
+contract(K + 'BundleIndexV1.update_tile_offset', props=['C05', 'C19'],
+         types=dict(x='int', y='int', offset='int', size='int'), returns='none', inline=['_tile_index_offset'],
+         requires=['0 <= x < 128 and 0 <= y < 128', 'f_len(self._fh) >= %d' % IDX1_END, '0 <= offset < 1099511627776'],
+         ensures=['v1_entry(self._fh, x, y) == offset'] + _V1_FRAME,
+         must_fail='v1_entry(self._fh, x, y) == 0')
+contract(K + 'BundleIndexV1.remove_tile_offset', props=['C05', 'C19'],
+         types=dict(x='int', y='int'), returns='none', inline=['_tile_index_offset'],
+         requires=['0 <= x < 128 and 0 <= y < 128', 'f_len(self._fh) >= %d' % IDX1_END],
+         # the slot reads as "missing" (offset 0) afterwards - all five bytes - and no other slot changes
+         ensures=['v1_entry(self._fh, x, y) == 0'] + _V1_FRAME,
+         must_fail='v1_entry(self._fh, x, y) == 1')
+
+contract(K + 'BundleDataV1.read_size', props=['C05', 'C19'],
+         types=dict(offset='int'), returns='int',
+         requires=['offset >= 0'], modifies=['self._fh.pos'],
+         raises={'struct.error': 'offset + 4 > f_len(self._fh)'},
+         ensures=['result == f_int(self._fh, offset, 4)'],
+         must_fail='result == 0')
+contract(K + 'BundleDataV1.read_tile', props=['C05', 'C19'],
+         types=dict(offset='int'),
+         requires=['offset >= 0', 'offset + 4 <= f_len(self._fh)',
+                   'offset + 4 + f_int(self._fh, offset, 4) <= f_len(self._fh)'],
+         modifies=['self._fh.pos'],
+         ensures=['implies(f_int(self._fh, offset, 4) > 0, result == f_blob(self._fh, offset + 4, f_int(self._fh, offset, 4)))',
+                  'implies(f_int(self._fh, offset, 4) == 0, result == False)'],
+         must_fail='result == False')
+
+_V1_RECORDS_KEPT = """forall(lambda o, n: implies(60 <= o and n >= 0 and o + n <= old(f_len(self._fh)),
+        f_blob(self._fh, o, n) == old(f_blob(self._fh, o, n))
+        and implies(o + 4 <= old(f_len(self._fh)), f_int(self._fh, o, 4) == old(f_int(self._fh, o, 4)))))"""
+contract(K + 'BundleDataV1.append_tile', props=['C05', 'C19', 'C06'],
+         types=dict(data='blob', prev_offset='int'), returns='tuple[int,int]',
+         requires=['f_len(self._fh) >= 60', 'len(data) < 4294967296',
+                   # the previous index entry of the slot: empty or pointing at a size field inside the file (C19 invariant)
+                   'prev_offset == 0 or (prev_offset >= 0 and prev_offset + 4 <= f_len(self._fh))',
+                   'f_int(self._fh, 16, 8) + 4 < 18446744073709551616',
+                   'f_int(self._fh, 24, 8) + len(data) + 4 < 18446744073709551616'],
+         raises={},
+         ensures=[
+             # the record <size><bytes> is appended at the old end of the file ...
+             'result[0] == old(f_len(self._fh)) and result[1] == len(data)',
+             'f_int(self._fh, result[0], 4) == len(data) and f_blob(self._fh, result[0] + 4, len(data)) == data',
+             'f_len(self._fh) == old(f_len(self._fh)) + 4 + len(data)',
+             # ... every existing record (everything above the 60-byte header) is untouched ...
+             _V1_RECORDS_KEPT,
+             # ... and C06: the record has left the process (write buffer flushed) BEFORE the caller publishes its
+             # offset in the index file, which is a different file handle
+             'f_durable(self._fh, result[0], 4 + len(data))',
+         ],
+         crash=[_V1_RECORDS_KEPT],
+         must_fail='result[0] == 0')
